@@ -486,7 +486,7 @@ Inductive ires15 := IOk | IErr | IPanic | IOther.
 #[global] Instance ires15_eq_dec : EqDecision ires15.
 Proof. solve_decision. Defined.
 Record c15act := mkAct {
-  a_labels : list label; a_broken : list (cid * key); a_order : list cname; a_res : ires15; a_cnt : Z;
+  a_labels : list label; a_broken : list (cid * key); a_order : list cname; a_mid : list (key * list label); a_res : ires15; a_cnt : Z;
   a_caches : list (cid * list key);                       (* contents after the call, sorted *)
   a_index : list (cname * list (label * list key));       (* index after the call (VerifIndexSize), empty lists dropped *)
 }.
@@ -541,7 +541,7 @@ Fixpoint c15_run (dels : list (cname * list cid)) (ix : idx) (cs : caches) (befo
   match acts with
   | [] => (true, true)
   | a :: r =>
-    let '(ok, cnt, ix', cs') := invalidate (a_broken a) (a_order a) ix cs (a_labels a) 0 in
+    let '(ok, cnt, ix', cs') := invalidate (a_broken a) (a_order a) ix cs (a_labels a) 0 (a_mid a) in
     let m := eqb (bool_decide (a_res a = IOk)) ok && (a_cnt a =? cnt) &&
              forallb (fun c => bool_decide (cache_keys (a_caches a) c = default [] (cs' !! c))) (map fst before) &&
              forallb (fun n => forallb (fun l =>
